@@ -150,11 +150,21 @@ type Fetcher struct {
 	Hook func(src string)
 	// Src, if set for a source, is returned as the "fetched from" URL.
 	Src map[string]string
+	// After, if set, is called when a Fetch is about to return (completion seam).
+	After func(src string)
+	// Nil lists sources for which Fetch returns (nil, "", nil).
+	Nil map[string]bool
 }
 
 func (f *Fetcher) Fetch(src string, duration, timeout time.Duration) (*profile.Profile, string, error) {
 	if f.Hook != nil {
 		f.Hook(src)
+	}
+	if f.After != nil {
+		defer f.After(src)
+	}
+	if f.Nil[src] {
+		return nil, "", nil
 	}
 	if e, ok := f.Errs[src]; ok {
 		return nil, "", e
@@ -239,6 +249,7 @@ func Sandbox() string {
 	os.Setenv("PPROF_BINARY_PATH", filepath.Join(sandbox, "bin"))
 	os.Setenv("TMPDIR", filepath.Join(sandbox, "tmp"))
 	os.Unsetenv("PPROF_TOOLS")
+	os.Setenv("PATH", filepath.Join(sandbox, "bin")) // no external tools: LookPath is fast and finds nothing
 	os.Setenv("TZ", "UTC")
 	return sandbox
 }
